@@ -370,6 +370,53 @@ def r13_11(ctx, rep):
            "; ".join(bad[:2]) + " — for the categories switched off the flag stays True whatever their attribute expressions look like")
 
 
+@SPEC.rule(
+    "R13.12",
+    "affine means affine everywhere: what decides `this attribute expression is affine in the parameters` in variable_metadata_function is a "
+    "structural test on the symbolic second derivative (`ca.jacobian(ca.jacobian(expr, p), p).is_zero()` / ca.hessian) — not that derivative "
+    "evaluated at one parameter vector (l*w*h has a Hessian that vanishes at p = 0 and nowhere else)",
+)
+def r13_12(ctx, rep):
+    from ..pyutil import inlined
+    R = "R13.12"
+    fn = _metadata_fn(ctx, R)
+    site = MODEL + ":Model.variable_metadata_function"
+    n = 0
+    for t in ast.walk(fn):
+        if isinstance(t, ast.If) and any(isinstance(x, ast.Assign) and is_name(x.targets[0], "is_affine") and isinstance(x.value, ast.Constant) and x.value.value is False
+                                         for b in t.body for x in ast.walk(b)):
+            test = inlined(t.test, fn.body)
+            for c in ast.walk(test):
+                if isinstance(c, ast.Call) and isinstance(c.func, ast.Attribute) and c.func.attr in ("is_zero", "is_constant", "nnz"):
+                    recv = c.func.value
+                    n += 1
+                    inner = [x for x in ast.walk(recv) if isinstance(x, ast.Call)]
+                    last = [(call_name(x) or "").split(".")[-1] for x in inner]
+                    evaluated = any(isinstance(x.func, ast.Call) for x in inner) or any(l in ("Function", "call", "evalf", "DM") for l in last)
+                    symbolic = any(l in ("jacobian", "hessian") for l in last) and not evaluated
+                    rep.ob(R, site, "zero test #%d is asked of the symbolic derivative" % n, symbolic,
+                           "the affinity test looks at `%s`: a derivative evaluated at a point (a ca.Function applied to numbers) says nothing about "
+                           "the other points, and a product of three parameters passes as affine" % norm(recv)[:80])
+    if n < 1:
+        raise MechanismMissing(R, "the structural zero test behind `is_affine = False` was not found")
+
+
+@SPEC.rule(
+    "R13.13",
+    "no coefficient is rounded away: every ca.sparsify in casadi/model.py is called with the expression alone — a tolerance (`ca.sparsify(A, "
+    "1e-10)`) removes a small but real dependence on a parameter (8.854e-12 * area) from the rebuilt metadata function",
+)
+def r13_13(ctx, rep):
+    R = "R13.13"
+    mod = ctx.module(MODEL, R)
+    cs = [c for c in ast.walk(mod) if isinstance(c, ast.Call) and (call_name(c) or "").split(".")[-1] == "sparsify"]
+    if len(cs) < 2:
+        raise MechanismMissing(R, "fewer than 2 sparsify calls found in casadi/model.py")
+    for k, c in enumerate(cs):
+        rep.ob(R, MODEL, "sparsify #%d takes no tolerance" % (k + 1), len(c.args) == 1 and not c.keywords,
+               "`%s` (line %d): entries below the tolerance are dropped, not just structural zeros" % (norm(c)[:60], c.lineno))
+
+
 # -- seeded variants ---------------------------------------------------------
 @SPEC.rule(
     "R13.7",
